@@ -84,7 +84,7 @@ func judge(c *common.Ctx, j *judged) {
 		return
 	}
 	rp := j.p
-	if shrunk[key] < 2 {
+	if shrunk[key] < 2 && progSize(j.p) > 25 {
 		shrunk[key]++
 		rp = shrink(j.p, key, 300)
 		what += " | shrunk: " + progText(rp)
@@ -108,6 +108,22 @@ func verdict(j *judged) (string, string) {
 	// (1) the value defined by the expression language
 	if j.o.Exit1 {
 		return "evaluation-fails:"+fam, fmt.Sprintf("[%s] a well-typed view whose value is %s ends the process with status 1: %s", fam, j.ref.String(), progText(p))
+	}
+	if fam == "nested-let-rebinds-outer-let" && j.o.V.K == "m" && !valEq(j.o.V, j.ref) {
+		// what "the nested let overwrote the outer one" predicts: out = the inner transform's x
+		if inner, ok := mapGet(j.ref, "inner"); ok && inner.K == "m" {
+			if f, ok := mapGet(inner, "f"); ok {
+				exp := cloneVal(j.ref)
+				for i := range exp.M {
+					if exp.M[i].Key == "out" {
+						exp.M[i].V = f
+					}
+				}
+				if valEq(j.o.V, exp) {
+					return "outer-let-rebound-by-nested-let", fmt.Sprintf("[%s] a `let x` inside a nested transform replaced the outer `let x`: the outer body reads %s afterwards, lexical scoping gives %s: %s", fam, j.o.V.String(), j.ref.String(), progText(p))
+				}
+			}
+		}
 	}
 	if !valEq(j.o.V, j.ref) {
 		return "wrong-value:"+fam, fmt.Sprintf("[%s] EvaluateView returned %s, the expression semantics give %s: %s", fam, j.o.V.String(), j.ref.String(), progText(p))
@@ -177,6 +193,27 @@ func shapeLetRebind(r *common.Rng) *Prog {
 		Views: []View{{Name: "main", Params: []string{"p0", "p1"}, Body: eTr(eName("p0"), ".", "other", st...)}}}
 }
 
+func cloneVal(v *Val) *Val {
+	b, _ := json.Marshal(v)
+	var w Val
+	json.Unmarshal(b, &w)
+	return &w
+}
+
+// a let inside a nested transform takes the name of a let of the enclosing body, which is read afterwards
+func shapeNestedLetRebind(r *common.Rng) *Prog {
+	a, b := int64(r.Intn(5)), int64(10+r.Intn(5))
+	inner := eTr(eName("p0"), ".", "other", sLet("x", eLit(vInt(b))), sAssign("f", eName("x")))
+	st := []Stmt{
+		sLet("x", eLit(vInt(a))),
+		sLet("r", inner),
+		sAssign("out", eName("x")),
+		sAssign("inner", eName("r")),
+	}
+	return &Prog{Typed: true, Family: "nested-let-rebinds-outer-let", Main: "main", Scope: []KV{{"p0", vInt(0)}},
+		Views: []View{{Name: "main", Params: []string{"p0"}, Body: eTr(eName("p0"), ".", "other", st...)}}}
+}
+
 // ---- the operator x kind x kind matrix (bounded-exhaustive, depth 1) ----
 var binops = []string{"NO_Op", "EQ", "NE", "LT", "LE", "GT", "GE", "IN", "CONTAINS", "NOT_IN", "NOT_CONTAINS", "ADD", "SUB", "MUL",
 	"DIV", "MOD", "POW", "AND", "OR", "BUTNOT", "BITAND", "BITOR", "BITXOR", "COALESCE", "WHERE", "TO_MATCHING", "TO_NOT_MATCHING", "FLATTEN"}
@@ -235,7 +272,7 @@ func main() {
 	}
 	c := common.Setup("C10")
 	defer c.Finish()
-	c.Res.Rule = "each case = (views of one transform application, caller's scope) evaluated by the real eval.EvaluateView in a worker subprocess; streams: typed programs over the modelled operators (lets reused by later statements, helper views, iterations whose scope variable shadows a binding), the Appendix-B shapes (a list bound once and concatenated twice; where/flatten/transform whose scope variable equals an outer binding; set-typed transforms producing duplicates), a let that takes a parameter's name, the operator x kind x kind matrix at depth 1, blind mutants of typed programs (model comparison only); distinct = distinct program JSON; non-trivial = the main body applies at least one operator, transform or call"
+	c.Res.Rule = "each case = (views of one transform application, caller's scope) evaluated by the real eval.EvaluateView in a worker subprocess; streams: typed programs over the modelled operators (lets reused by later statements, helper views, iterations whose scope variable shadows a binding), the Appendix-B shapes (a list bound once and concatenated twice; where/flatten/transform whose scope variable equals an outer binding; set-typed transforms producing duplicates), a let that takes a parameter's name / an outer let's name from inside a nested transform, the operator x kind x kind matrix at depth 1, blind mutants of typed programs (model comparison only); distinct = distinct program JSON; non-trivial = the main body applies at least one operator, transform or call"
 	par := 8
 
 	if c.Replay != "" {
@@ -276,7 +313,7 @@ func main() {
 	for i := 0; i < nshape; i++ {
 		progs = append(progs, shapeConcatTwice(c.Rng.Fork()), shapeScopeVarShadow(c.Rng.Fork()), shapeSetTransformDup(c.Rng.Fork()))
 		if i%8 == 0 {
-			progs = append(progs, shapeLetRebind(c.Rng.Fork()))
+			progs = append(progs, shapeLetRebind(c.Rng.Fork()), shapeNestedLetRebind(c.Rng.Fork()))
 		}
 	}
 	// B. typed programs
